@@ -30,4 +30,7 @@ def needs(pid, tier):
         'C19': (['fixture-cg', 'ws-default'] + (['codegen-sm'] if t else []), gen, False),
         'C20': (['ws-default'], gen, False),
     }
-    return table.get(pid, ([], [], False))
+    mir, g, wit = table.get(pid, ([], [], False))
+    if t and pid in ('C01', 'C02', 'C03', 'C04', 'C06', 'C07', 'C13', 'C20'):
+        g = g + ['tail-enum', 'sm-enum']      # small-scope family (props.gen.smallscope)
+    return mir, g, wit
